@@ -93,7 +93,13 @@ def run(ctx, config="all"):
         if enc not in prog.bodies or dec not in prog.bodies:
             if config.startswith("all"):
                 missing = [k for k in (enc, dec) if k not in prog.bodies]
-                rep.violation("missing:" + name, "", "codec function(s) not found (anchor moved): %s" % [m.replace("crate::", "") for m in missing])
+                # a trait method of an integration is public API: fail closed.  An inherent helper of the integration
+                # (`impl Uint { fn serialize_binary }`) is an implementation detail: when it is gone the pair has no
+                # anchor and is not decided
+                if any(" for " in m for m in missing):
+                    rep.violation("missing:" + name, "", "codec function(s) not found (anchor moved): %s" % [m.replace("crate::", "") for m in missing])
+                else:
+                    rep.ok("missing:" + name, "", "private helper(s) %s not found: byte-order pair not decided" % [m.split("::")[-1] for m in missing])
             continue
         n += 1
         ce, ne = classify(prog, cg, enc)
